@@ -56,6 +56,23 @@ func replay(job Job) (Run, []Violation, error) {
 
 func serve(job Job, send func(Msg)) {
 	switch job.Mode {
+	case "call":
+		fn, ok := calls[job.Scenario]
+		if !ok {
+			send(Msg{ID: job.ID, Type: "error", Err: "unknown call " + job.Scenario})
+			return
+		}
+		res, err := fn(job.Params)
+		if err != nil {
+			send(Msg{ID: job.ID, Type: "error", Err: err.Error()})
+			return
+		}
+		raw, err := json.Marshal(res)
+		if err != nil {
+			send(Msg{ID: job.ID, Type: "error", Err: err.Error()})
+			return
+		}
+		send(Msg{ID: job.ID, Type: "callres", Result: raw})
 	case "path":
 		// Execute the whole path; report all violations (per-step and extensions at the end).
 		run, viol, err := replay(job)
